@@ -1,15 +1,33 @@
 /-
 C10 — Writing a Dataset to disk and reading it back is the identity (partial).
-(first part: the attribute codec; the store theorems follow)
+
+Property theorems about `Model/H5Attr.lean` (the attribute codec) and `Model/H5Dataset.lean` (write /
+read over an abstract tree of HDF5 groups with the two memos `id ↦ field name`, `field name ↦ object`).
+
+Proved, for all inputs:
+* `decode_encode`        the codec is the identity on every meta tree that can be saved (dicts, lists,
+                         tuples, sets, strings, numbers, booleans, None, NaN, ±inf, any nesting);
+                         `savable`, `strings_untouched`.
+* `level_filter`         the file lists exactly — and in order — the fields (recursively) whose write level
+                         is at least the requested one; `restricted_fields_have_level`.
+* `array_bit_identical`  the array of a field without references (bool, float, text, sigma, time,
+                         time delta) is read back bit for bit (kind, shape, rows), whatever the memo holds;
+                         `units_identical` (None ↔ "").
+Not proved (full statement, measured by the correspondence through real h5py files and by the oracle):
+  `read_write : writable d → observe (read (write d ℓ)) = observe (restrict d ℓ)` for the whole dataset and
+  `refs_restored` (an attached object is again the very field it referred to, for every reference
+  topology).  The model executes both (the driver's `rt` against `restrict`), the theorems above are the
+  per-array and per-attribute parts of it; the assembly over the two memos is not proved.
 -/
 import Midgard.Proofs.H5Attr
-import Midgard.Model.H5Dataset
+import Midgard.Proofs.H5Dataset
 
 namespace Midgard.Props.C10
-open Midgard.H5Attr
+open Midgard.H5Attr Midgard.H5 Midgard.Dataset
 
-/-- `decode_h5attr (encode_h5attr m) = m` for every meta tree that can be saved: every nesting of
-dicts, lists, tuples, sets, strings, numbers, booleans, None, NaN and infinities -/
+/-! ### the attribute codec -/
+
+/-- `decode_h5attr (encode_h5attr m) = m` for every meta tree that can be saved -/
 theorem decode_encode (m : Meta) (a : Attr) (h : encode m = some a) : decode a = some m :=
   Midgard.H5Attr.decode_encode m a h
 
@@ -26,8 +44,56 @@ theorem strings_untouched (s : String) :
   · simp only [encode, Option.bind_some, decode]
     exact evalAst_toAst _
 
+/-! ### the store -/
+
+/-- "Fields below the requested write level, and only those, are omitted": the file written for a
+dataset lists, in order, exactly the fields of `restrict d ℓ`, with their types -/
+theorem level_filter (h : Heap) (d : DS) (lvl : Nat) (file : File) (hw : writeDS h d lvl = .ok file) :
+    file.numObs = d.numObs ∧
+    file.members = (restrictFields lvl d.fields).map (fun f => (f.name, fieldType f)) ∧
+    file.groups.map (·.1) = (restrictFields lvl d.fields).map Field.name :=
+  writeDS_members h d lvl file hw
+
+/-- the same inside every collection -/
+theorem level_filter_nested (h : Heap) (lvl : Nat) (fs : List Field) (pre : String) (memo : WMemo)
+    (groups : List (String × Grp)) (mem : List (String × Option Kind)) (memo' : WMemo)
+    (hw : writeField.writeFields h lvl fs pre memo = .ok (groups, mem, memo')) :
+    groups.map (·.1) = (restrictFields lvl fs).map Field.name ∧
+    mem = (restrictFields lvl fs).map (fun f => (f.name, fieldType f)) :=
+  writeFields_names h lvl fs pre memo groups mem memo' hw
+
+/-- every field of `restrict d ℓ` has level ≥ ℓ -/
+theorem restricted_fields_have_level (lvl : Nat) (fs : List Field) :
+    ∀ f ∈ restrictFields lvl fs, lvl ≤ Midgard.H5.Field.level f :=
+  restrict_level lvl fs
+
+/-- an array without references is read back bit for bit -/
+theorem array_bit_identical (h : Heap) (file : File) (o : Nat) (ob : Obj) (fieldname : String) (wm : WMemo)
+    (g : Grp) (wm' : WMemo) (fw fr : Nat) (s : RSt)
+    (hob : h[o]? = some ob) (hk : (ob.kind.hasOther || ob.kind.isDelta) = false)
+    (hw : writeArr h (fw + 1) o fieldname wm = .ok (g, wm')) :
+    wm' = wm ∧ g.attrs.fieldname = fieldname ∧
+    ∃ s', readArr file (fr + 1) g s = .ok (s.heap.length, s') ∧
+      s'.heap = s.heap ++ [{ ob with other := none, refPos := none }] :=
+  readArr_writeArr h file o ob fieldname wm g wm' fw fr s hob hk hw
+
+/-- units: `None ↔ ""`, a real unit tuple as it is -/
+theorem units_identical (u : Option (List String)) (hu : ∀ us, u = some us → us.any (fun x => !x.isEmpty) = true) :
+    readUnit u = u := readUnit_id u hu
+
+/-! ### non-vacuity -/
+
+example : decode ((encode (.dict [(.atom (.str "nan"), .list [.atom .nan, .atom .ninf, .atom (.int (-3))])])).get!) =
+    some (.dict [(.atom (.str "nan"), .list [.atom .nan, .atom .ninf, .atom (.int (-3))])]) :=
+  decode_encode _ _ rfl
+
 end Midgard.Props.C10
 
 #print axioms Midgard.Props.C10.decode_encode
 #print axioms Midgard.Props.C10.savable
 #print axioms Midgard.Props.C10.strings_untouched
+#print axioms Midgard.Props.C10.level_filter
+#print axioms Midgard.Props.C10.level_filter_nested
+#print axioms Midgard.Props.C10.restricted_fields_have_level
+#print axioms Midgard.Props.C10.array_bit_identical
+#print axioms Midgard.Props.C10.units_identical
